@@ -60,7 +60,11 @@ def gen_design(r, features=("cname", "attr", "param", "names", "latch", "conn", 
         if "bus" in features and r.random() < 0.25:
             nm = fresh(r.choice(bus_bases))
             return [(nm, b) for b in range(r.randint(2, 3))]
+        if short_names and r.random() < 0.12:
+            # very short net names - among them pieces of the reserved word unconn (u, n, co, conn ...): names like any other
+            return [(short_names.pop(r.randrange(len(short_names))), None)]
         return [((r.choice(weird) % uid[0]) + fresh("_"), None)]
+    short_names = ["u", "n", "c", "o", "un", "co", "on", "nn", "conn", "nco", "x", "q"]
     pending_bus = []
     for k in range(r.randint(2, 9)):
         kind = r.random()
